@@ -18,6 +18,12 @@ func init() {
 }
 
 func c19(c *q.Ctx) {
+	// one account, one record: the balance key is an injective function of the account name exactly as the contract
+	// compares names (sender == receiver is decided on the raw strings) - a key that normalises the name makes two
+	// names share a record that the transfer treats as two
+	if mk := c.Fn("kernel/contract/proposal/utils::MakeAccountBalanceKey"); mk != nil {
+		c.ReturnIs(mk, 0, []string{"((\"balanceOf\" + \"_\") + p0) OR (\"balanceOf_\" + p0)"}, "the key is the fixed prefix followed by the account name, unchanged")
+	}
 	const gt = "kernel/contract/proposal/govern_token::"
 	bucket := "utils.GetGovernTokenBucket()"
 	// K3: who writes the bucket
